@@ -103,6 +103,7 @@ def generate(seed: int, tier: str = "quick") -> dict:
         sc["faults"].append({"kind": "data_read_from_minute_files"})
     if not sc.get("opts", {}).get("reordered_rows"):
         _maybe_add_column(R.sub(seed, "add_column"), sc)
+        _maybe_decoys(R.sub(seed, "decoys"), sc)
     return sc
 
 
@@ -166,6 +167,7 @@ def gen_donor(seed, tier, donor):
                 break
     sc["twins"] = twins
     _maybe_add_column(R.sub(seed, "add_column"), sc)
+    _maybe_decoys(R.sub(seed, "decoys"), sc)
     return sc
 
 
@@ -344,6 +346,55 @@ def _add_sparse_column(sim, m, a):
     return call
 
 
+def _maybe_decoys(rx, sc):
+    if rx.random() < 0.25:
+        sc.setdefault("opts", {})["decoys"] = True
+        sc["faults"].append({"kind": "other_market_objects_constructed_between_the_runs"})
+
+
+def _build_decoys(sim):
+    """Between the first run and its repetition the process constructs - and drops - other market objects of the same
+    kinds with OTHER tokens / pools (another notebook cell, another configuration tried and discarded). A repeated run on
+    the same inputs is a function of its inputs, not of what else was built meanwhile."""
+    from demeter import MarketInfo, TokenInfo
+    from demeter.broker import MarketTypeEnum
+
+    made = 0
+    for name, m in sim.markets.items():
+        kind = type(m).__name__
+        try:
+            if kind == "GmxMarket":
+                from demeter.gmx import GmxMarket
+
+                mw_ = next(x for x in sim.world["markets"] if x["name"] == name)  # the scenario's own token list
+                toks = [sim.token(t) for t in sorted(mw_["tokens"])]
+                GmxMarket(MarketInfo("decoy_" + name, MarketTypeEnum.gmx_v1), tokens=toks[:1] + [TokenInfo("DECOY", 18)])
+                GmxMarket(MarketInfo("decoy2_" + name, MarketTypeEnum.gmx_v1), tokens=[])
+                made += 1
+            elif kind == "UniLpMarket":
+                from demeter.uniswap import UniLpMarket, UniV3Pool
+
+                a, b = TokenInfo("DECOYA", 7), TokenInfo("DECOYB", 11)
+                UniLpMarket(MarketInfo("decoy_" + name, MarketTypeEnum.uniswap_v3), UniV3Pool(a, b, 1, a))
+                made += 1
+            elif kind == "GmxV2Market":
+                from demeter.gmx import GmxV2Market
+                from demeter.gmx._typing2 import GmxV2Pool
+
+                a, b = TokenInfo("DECOYA", 7), TokenInfo("DECOYB", 11)
+                GmxV2Market(MarketInfo("decoy_" + name, MarketTypeEnum.gmx_v2), GmxV2Pool(a, b, a))
+                made += 1
+            elif kind == "DeribitOptionMarket":
+                from demeter.deribit import DeribitOptionMarket
+
+                other = DeribitOptionMarket.BTC if m.token == DeribitOptionMarket.ETH else DeribitOptionMarket.ETH
+                DeribitOptionMarket(MarketInfo("decoy_" + name, MarketTypeEnum.deribit_option), other)
+                made += 1
+        except ImportError:
+            raise
+    return made
+
+
 def _maybe_add_column(rx, sc):
     """in ~12% of the scenarios the strategy adds a sparse indicator column to one single-index market in initialize"""
     if rx.random() >= 0.12:
@@ -483,10 +534,17 @@ def execute(scenario):
     frames = dict(s1.fed)
     s1.run()
     h1 = {name: frame_hash(df, ucols) for name, df in frames.items()}
+    if scenario.get("opts", {}).get("decoys"):
+        _build_decoys(s1)  # other market objects come and go in the same process between the two runs
+        res_decoys = True
+    else:
+        res_decoys = False
     s2 = Sim(base, SnapshotLogger(), prebuilt=frames)  # fresh account, the very same frame objects
     s2.run()
     h2 = {name: frame_hash(df, ucols) for name, df in frames.items()}
     res = Combined([s1, s2])
+    if res_decoys:
+        res.count("fault:other_market_objects_constructed_between_the_runs")
     for name in h0:
         if h0[name] != h1[name] or h0[name] != h2[name]:
             res.violate("c02.input_mutated", name, after_run=1 if h0[name] != h1[name] else 2)
